@@ -49,6 +49,9 @@ type Fld struct {
 	Req   bool   `json:"req,omitempty"`
 	V     *Val   `json:"v,omitempty"`
 	Alts  []Fld  `json:"alts,omitempty"`
+	// Sec declares the attribute with a security DSL function: username | password |
+	// apikey | token | accesstoken (Username / UsernameField ... depending on NoTag).
+	Sec string `json:"sec,omitempty"`
 }
 
 // UT is a named type: an object (Fields) or an alias of another type (Alias).
@@ -74,6 +77,32 @@ type Meth struct {
 	Metadata []string `json:"metadata,omitempty"`
 	Headers  []string `json:"headers,omitempty"`
 	Trailers []string `json:"trailers,omitempty"`
+	// Security is the kind of the scheme the method requires: basic | apikey | jwt | oauth2.
+	Security string `json:"security,omitempty"`
+}
+
+// SecNames lists the payload attributes that carry credentials of the method's scheme
+// (goa moves them to the request metadata unless they are mapped explicitly).
+func (m *Meth) SecNames(d *Design) []string {
+	if m.Security == "" || m.Payload == nil {
+		return nil
+	}
+	fs := m.Payload.Fields
+	if m.Payload.T != nil && m.Payload.T.K == "user" {
+		if ut := d.ut(m.Payload.T.Ref); ut != nil {
+			fs = ut.Fields
+		}
+	}
+	want := map[string][]string{"basic": {"username", "password"}, "apikey": {"apikey"}, "jwt": {"token"}, "oauth2": {"accesstoken"}}[m.Security]
+	var out []string
+	for _, f := range fs {
+		for _, w := range want {
+			if f.Sec == w {
+				out = append(out, f.Name)
+			}
+		}
+	}
+	return out
 }
 
 type Svc struct {
@@ -118,8 +147,9 @@ var primTypes = map[string]expr.DataType{
 }
 
 type interp struct {
-	d     *Design
-	types map[string]expr.UserType
+	d       *Design
+	types   map[string]expr.UserType
+	schemes map[string]*expr.SchemeExpr
 }
 
 func canonicalInt(s string) (int, bool) {
@@ -187,6 +217,35 @@ func (in *interp) field(f *Fld) {
 		v := f.V
 		args = append(args, func() { validation(v) })
 	}
+	if f.Sec != "" {
+		var tag any = f.Tag
+		if n, ok := canonicalInt(f.Tag); ok {
+			tag = n
+		}
+		switch {
+		case f.Sec == "username" && f.NoTag:
+			dsl.Username(f.Name, args...)
+		case f.Sec == "username":
+			dsl.UsernameField(tag, f.Name, args...)
+		case f.Sec == "password" && f.NoTag:
+			dsl.Password(f.Name, args...)
+		case f.Sec == "password":
+			dsl.PasswordField(tag, f.Name, args...)
+		case f.Sec == "apikey" && f.NoTag:
+			dsl.APIKey("api_key", f.Name, args...)
+		case f.Sec == "apikey":
+			dsl.APIKeyField(tag, "api_key", f.Name, args...)
+		case f.Sec == "token" && f.NoTag:
+			dsl.Token(f.Name, args...)
+		case f.Sec == "token":
+			dsl.TokenField(tag, f.Name, args...)
+		case f.Sec == "accesstoken" && f.NoTag:
+			dsl.AccessToken(f.Name, args...)
+		default:
+			dsl.AccessTokenField(tag, f.Name, args...)
+		}
+		return
+	}
 	if f.NoTag {
 		dsl.Attribute(f.Name, args...)
 		return
@@ -230,6 +289,24 @@ func attrs(names []string) func() {
 
 func (in *interp) top() {
 	dsl.API("c10", func() {})
+	in.schemes = map[string]*expr.SchemeExpr{}
+	for _, s := range in.d.Svcs {
+		for _, m := range s.Methods {
+			if _, ok := in.schemes[m.Security]; ok || m.Security == "" {
+				continue
+			}
+			switch m.Security {
+			case "basic":
+				in.schemes["basic"] = dsl.BasicAuthSecurity("basic")
+			case "apikey":
+				in.schemes["apikey"] = dsl.APIKeySecurity("api_key")
+			case "jwt":
+				in.schemes["jwt"] = dsl.JWTSecurity("jwt")
+			case "oauth2":
+				in.schemes["oauth2"] = dsl.OAuth2Security("oauth2", func() { dsl.ClientCredentialsFlow("http://auth/token", "http://auth/refresh") })
+			}
+		}
+	}
 	for i := range in.d.Types {
 		ut := &in.d.Types[i]
 		if ut.Alias != nil {
@@ -244,6 +321,9 @@ func (in *interp) top() {
 			for mi := range s.Methods {
 				m := &s.Methods[mi]
 				dsl.Method(m.Name, func() {
+					if sc := in.schemes[m.Security]; sc != nil {
+						dsl.Security(sc)
+					}
 					if m.Payload != nil {
 						in.io(dsl.Payload, m.Payload)
 					}
